@@ -62,6 +62,8 @@ package main
 //@   ensures len(a.Files) == old(len(a.Files)) + 1 ==> r == nil && gRegular && gUTF8 && (C_Bool[allFlag] || !(len(gName) >= 1 && at(gName, lo(gName)) == '.'))
 //@   ensures len(a.Files) == old(len(a.Files)) + 1 ==> storedOK(sid(at(a.Files, hi(a.Files)-1).Data), gArgId) && (gNQ ==> C_Bool[quoteFlag] && gQErr == nil && len(a.Comment) > old(len(a.Comment)))
 //@   ensures len(a.Files) == old(len(a.Files)) ==> sameSlice(a.Comment, old(a.Comment))
+//@   ensures len(a.Files) == old(len(a.Files)) + 1 && gNQ ==> len(a.Comment) >= len(filename) + 1 && at(a.Comment, hi(a.Comment)-1) == '\n' && matchAt(a.Comment, hi(a.Comment) - 1 - len(filename), filename)
+//@   at call filepath.ToSlash#1: requires sameStr(path, filename)
 
 // main (partial contract: only the clause below is proved): the tree is walked from the
 // cleaned form of the directory argument, so that entry names are relative to it however
